@@ -91,9 +91,73 @@ pub fn literal(t: &str, v: &Value) -> String {
     }
 }
 
+/// a type term of the exchange format (or, in stage-1 programs, a plain string) as source text
+pub fn ty(t: &Value) -> String {
+    if let Some(s) = t.as_str() {
+        return s.to_string();
+    }
+    match t["k"].as_str().unwrap_or("") {
+        "prim" => t["t"].as_str().unwrap().to_string(),
+        "ptr" => format!("&{}", ty(&t["e"])),
+        "view" => format!("[]{}", ty(&t["e"])),
+        "array" => match t.get("nc").and_then(|x| x.as_str()) {
+            Some(name) => format!("[{name}]{}", ty(&t["e"])),
+            None => format!("[{}]{}", t["n"].as_u64().unwrap_or(0), ty(&t["e"])),
+        },
+        "named" => t["n"].as_str().unwrap().to_string(),
+        other => panic!("unknown type kind {other}"),
+    }
+}
+
+fn is_void(t: &Value) -> bool {
+    t.as_str() == Some("void") || t["k"] == "void" || t.is_null()
+}
+
+/// `&&x[i].m`: address markers, base, steps
+fn reference(r: &Value, lay: &mut Layout) -> String {
+    let mut s = String::new();
+    for _ in 0..r["addr"].as_u64().unwrap_or(0) {
+        s.push('&');
+    }
+    s.push_str(r["x"].as_str().unwrap());
+    if let Some(steps) = r["steps"].as_array() {
+        for st in steps {
+            match st["k"].as_str().unwrap_or("") {
+                "i" => s.push_str(&format!("[{}]", expr(&st["e"], lay))),
+                "m" => s.push_str(&format!(".{}", st["m"].as_str().unwrap())),
+                other => panic!("unknown step kind {other}"),
+            }
+        }
+    }
+    s
+}
+
 pub fn expr(e: &Value, lay: &mut Layout) -> String {
     let k = e["k"].as_str().unwrap_or("");
     let s = match k {
+        "ref" => reference(e, lay),
+        "st" => {
+            let parts: Vec<String> = e["fs"]
+                .as_array()
+                .unwrap()
+                .iter()
+                .map(|f| {
+                    let m = f["m"].as_str().unwrap();
+                    // field shorthand `S { from }` for `S { from: from }` is a layout variation
+                    if f["e"]["k"] == "var" && f["e"]["x"].as_str() == Some(m) && lay.extra_parens() {
+                        m.to_string()
+                    } else {
+                        format!("{m}:{}{}", lay.sp(), expr(&f["e"], lay))
+                    }
+                })
+                .collect();
+            format!("{}{}{{{}{}{}}}", e["n"].as_str().unwrap(), lay.sp(), lay.sp(), parts.join(", "), lay.sp())
+        }
+        "call" => {
+            let args: Vec<String> = e["args"].as_array().unwrap().iter().map(|x| expr(x, lay)).collect();
+            format!("{}({})", e["f"].as_str().unwrap(), args.join(", "))
+        }
+        "sizeof" => format!("|:{}|", ty(&e["ty"])),
         "lit" => literal(e["t"].as_str().unwrap(), &e["v"]),
         "var" => e["x"].as_str().unwrap().to_string(),
         "paren" => format!("({})", expr(&e["e"], lay)),
@@ -109,10 +173,15 @@ pub fn expr(e: &Value, lay: &mut Layout) -> String {
             format!("[{}]", parts.join(", "))
         }
         "idx" => format!("{}[{}]", e["x"].as_str().unwrap(), expr(&e["i"], lay)),
-        "len" => format!("|{}|", e["x"].as_str().unwrap()),
+        "len" => match e.get("r") {
+            Some(r) => format!("|{}|", reference(r, lay)),
+            None => format!("|{}|", e["x"].as_str().unwrap()),
+        },
         other => panic!("unknown expression kind {other}"),
     };
-    if lay.extra_parens() && k != "arr" { format!("({s})") } else { s }
+    // (an address `&x` is not an expression that can be parenthesised; aggregates keep their literal form)
+    let plain = k == "arr" || k == "st" || (k == "ref" && e["addr"].as_u64().unwrap_or(0) > 0);
+    if !plain && lay.extra_parens() { format!("({s})") } else { s }
 }
 
 /// an operand of a binary operator or of `as`: compound expressions are parenthesised
@@ -130,7 +199,7 @@ fn operand(e: &Value, lay: &mut Layout) -> String {
 /// the operand of a unary operator must be a primary expression
 fn primary(e: &Value, lay: &mut Layout) -> String {
     match e["k"].as_str().unwrap_or("") {
-        "var" | "paren" | "idx" | "len" => expr(e, lay),
+        "var" | "paren" | "idx" | "len" | "ref" => expr(e, lay),
         "lit" => {
             let s = expr(e, lay);
             if s.starts_with('-') || s.starts_with('(') { format!("({s})") } else { s }
@@ -164,8 +233,14 @@ pub fn item(it: &Value, lay: &mut Layout, res: Option<&Value>) -> String {
             }
         }
         "LP" => "loop;".to_string(),
-        "V" => format!("var{}{}:{}{}{}={}{};", lay.sp(), it["x"].as_str().unwrap(), lay.sp(), it["t"].as_str().unwrap(),
-                       lay.sp(), lay.sp(), expr(&it["e"], lay)),
+        "V" => {
+            let t = if it.get("ty").is_some() { ty(&it["ty"]) } else { ty(&it["t"]) };
+            match it.get("e") {
+                Some(e) => format!("var{}{}:{}{}{}={}{};", lay.sp(), it["x"].as_str().unwrap(), lay.sp(), t, lay.sp(), lay.sp(), expr(e, lay)),
+                None => format!("var{}{}:{}{};", lay.sp(), it["x"].as_str().unwrap(), lay.sp(), t),
+            }
+        }
+        "A" => format!("{}{}={}{};", reference(&it["r"], lay), lay.sp(), lay.sp(), expr(&it["e"], lay)),
         "S" => format!("{}{}={}{};", it["x"].as_str().unwrap(), lay.sp(), lay.sp(), expr(&it["e"], lay)),
         "SI" => format!("{}[{}]{}={}{};", it["x"].as_str().unwrap(), expr(&it["i"], lay), lay.sp(), lay.sp(), expr(&it["e"], lay)),
         "P" => format!("print!({},{}\"\\n\");", expr(&it["e"], lay), lay.sp()),
@@ -182,21 +257,37 @@ pub fn item(it: &Value, lay: &mut Layout, res: Option<&Value>) -> String {
 
 pub fn program(p: &Value, lay: &mut Layout) -> String {
     let mut s = String::new();
+    if let Some(ss) = p["structs"].as_array() {
+        for d in ss {
+            let head = if d["kind"] == "word" { format!("word{}", d["bits"].as_u64().unwrap_or(0)) } else { "struct".to_string() };
+            s.push_str(&format!("{head} {}", d["name"].as_str().unwrap()));
+            s.push_str(&lay.nl());
+            s.push('{');
+            s.push_str(&lay.nl());
+            for m in d["ms"].as_array().unwrap() {
+                s.push_str(&format!("{}:{}{},", m["x"].as_str().unwrap(), lay.sp(), ty(&m["ty"])));
+                s.push_str(&lay.nl());
+            }
+            s.push('}');
+            s.push_str(&lay.nl());
+        }
+    }
     if let Some(cs) = p["consts"].as_array() {
         for c in cs {
-            s.push_str(&format!("const {}: {} = {};", c["x"].as_str().unwrap(), c["t"].as_str().unwrap(), expr(&c["e"], lay)));
+            let t = if c.get("ty").is_some() { ty(&c["ty"]) } else { ty(&c["t"]) };
+            s.push_str(&format!("const {}: {} = {};", c["x"].as_str().unwrap(), t, expr(&c["e"], lay)));
             s.push_str(&lay.nl());
         }
     }
     for f in p["fns"].as_array().unwrap() {
         let params: Vec<String> = f["params"]
             .as_array()
-            .map(|a| a.iter().map(|x| format!("{}: {}", x["x"].as_str().unwrap(), x["t"].as_str().unwrap())).collect())
+            .map(|a| a.iter().map(|x| format!("{}: {}", x["x"].as_str().unwrap(), if x.get("ty").is_some() { ty(&x["ty"]) } else { ty(&x["t"]) })).collect())
             .unwrap_or_default();
-        let ret = f["ret"].as_str().unwrap_or("void");
+        let void = is_void(&f["ret"]);
         s.push_str(&format!("fn {}({})", f["name"].as_str().unwrap(), params.join(", ")));
-        if ret != "void" {
-            s.push_str(&format!(" -> {ret}"));
+        if !void {
+            s.push_str(&format!(" -> {}", ty(&f["ret"])));
         }
         s.push_str(&lay.nl());
         s.push('{');
@@ -207,7 +298,7 @@ pub fn program(p: &Value, lay: &mut Layout) -> String {
             s.push_str(&item(it, lay, f.get("res")));
             s.push_str(&lay.nl());
         }
-        if ret != "void" && !has_return_label {
+        if !void && !has_return_label {
             s.push_str(&format!("return: {}", expr(&f["res"], lay)));
             s.push_str(&lay.nl());
         }
